@@ -32,6 +32,7 @@ def handle (line : String) : String :=
   | "miniblock" :: rest => Drv.miniLine rest
   | "qblock" :: rest => Drv.qLine rest
   | "lblock" :: rest => Drv.lLine rest
+  | "mblock" :: rest => Drv.mLine rest
   | "unescape" :: rest => Drv.unescapeLine rest
   | "inline" :: rest => Drv.inlineLine rest
   | "inlinex" :: rest => Drv.inlineXLine rest
